@@ -327,7 +327,7 @@ func checksSort() {
 
 	// ---- slices.Clone / slices.Equal (C16.spec)
 	cClone := contract{"C16.spec", "slices", "Clone", 63, []string{`r == s`}}
-	cEqual := contract{"C16.spec", "slices", "Equal", 66, []string{`r ==> len(s1) == len(s2)`}}
+	cEqual := contract{"C16.spec", "slices", "Equal", 66, []string{`r ==> len(s1) == len(s2)`, `r ==> (forall i int :: 0 <= i && i < len(s1) ==> s1[i] == s2[i])`}}
 	ck := min(L-2, 6)
 	check("slices.Clone returns the same slice value (length, elements, nil-ness)", []contract{cClone},
 		fmt.Sprintf(`nil and all slices over {"a" "b" "ab" ""} up to length %d`, ck), func(t *T) {
@@ -344,7 +344,7 @@ func checksSort() {
 				t.Check(same, cClone.ensures[0], "Clone(%q)=%q (nil: %v / %v)", in, r, in == nil, r == nil)
 			})
 		})
-	check("slices.Equal implies equal lengths", []contract{cEqual},
+	check("slices.Equal implies equal lengths and equal elements", []contract{cEqual},
 		fmt.Sprintf(`all pairs of slices (and nil) over {"a" "b"} up to length %d`, min(ck, 5)), func(t *T) {
 			var xs [][]string
 			xs = append(xs, nil)
@@ -353,6 +353,13 @@ func checksSort() {
 				for _, b := range xs {
 					t.Case()
 					t.Check(!slices.Equal(a, b) || len(a) == len(b), cEqual.ensures[0], "Equal(%q,%q)", a, b)
+					elementwise := true
+					if slices.Equal(a, b) {
+						for i := 0; i < len(a) && i < len(b); i++ {
+							elementwise = elementwise && a[i] == b[i]
+						}
+					}
+					t.Check(elementwise, cEqual.ensures[1], "Equal(%q,%q) but elements differ", a, b)
 				}
 			}
 		})
